@@ -166,7 +166,7 @@ def _build_template(target, directory, no_base) -> Template:  # pylint: disable=
                 ent = fx.fetch(ws)
                 for tok in (1, 2, 0):
                     try:
-                        setattr(ent, attr, W.materialise(tpl.values[attr][tok], ws))
+                        W.assign(target["cls"], ent, attr, W.materialise(tpl.values[attr][tok], ws))
                     except Exception as exc:  # pylint: disable=broad-except
                         tpl.skipped[attr] = (f"the setter refuses the domain value {W.short(tpl.values[attr][tok], 60)} "
                                              f"(token {tok}): {type(exc).__name__}: {str(exc)[:120]}")
@@ -223,7 +223,9 @@ class Run:  # pylint: disable=too-many-instance-attributes
         self.viol = []
         self.obs_log = []
         self.stats = {"steps": 0, "skipped_invalid": 0, "dev_steps": 0, "raw_checked": 0, "reader_checked": 0,
-                      "extended": 0, "invalid_accepted": 0, "refused_changed_live": 0, "cut_after_deviation": 0}
+                      "extended": 0, "invalid_accepted": 0, "refused_changed_live": 0, "cut_after_deviation": 0,
+                      "assigned_inplace": 0, "assigned_fresh": 0, "unbound_scalar_checked": 0}
+        self.parity = sum(len(x[0]) + x[1] + x[2] for x in item["path"]) % 2  # which steps use the in-place style
         self.work = os.path.join(scratch(), f"run_{os.getpid()}.geoh5")
         self.copy = os.path.join(scratch(), f"run_{os.getpid()}_reader.geoh5")
         self.ws = None
@@ -232,6 +234,11 @@ class Run:  # pylint: disable=too-many-instance-attributes
         cls = self.target["cls"]
         self.cv = [[W.canon(W.normalise(cls, a, v)) for v in self.tpl.values[a]] for a in self.attrs]
         self.raw_seen = [dict() for _ in self.attrs]
+        # every OTHER scalar attribute of the entity (attribute map) is compared live vs re-read after every action:
+        # an assignment may legitimately change a coupled attribute (dip = 90 -> vertical) but never on one side only
+        self.unbound = [a for a in self.target["attrs"] if a not in self.attrs
+                        and self.target["stored_as"].get(a, "").startswith("attribute:")]
+        self.unbound_live, self.unbound_reader = {}, {}
 
     # ------------------------------------------------------------------ helpers
     def case(self):
@@ -268,6 +275,9 @@ class Run:  # pylint: disable=too-many-instance-attributes
             for a in self.attrs:
                 ok, v = _try_get(self.ent, a)
                 live.append(W.canon(W.normalise(self.target["cls"], a, v)) if ok else ("getter-raises", type(v).__name__, str(v)[:80]))
+            for a in self.unbound:
+                ok, v = _try_get(self.ent, a)
+                self.unbound_live[a] = W.canon(v) if ok else ("getter-raises", type(v).__name__)
             self.ws.geoh5.flush()
             shutil.copyfile(self.work, self.copy)
             src = self.copy
@@ -286,6 +296,10 @@ class Run:  # pylint: disable=too-many-instance-attributes
                     continue
                 ok, v = _try_get(ent2, a)
                 reader.append(W.canon(W.normalise(self.target["cls"], a, v)) if ok else ("getter-raises", type(v).__name__, str(v)[:80]))
+            if is_open and ent2 is not None:
+                for a in self.unbound:
+                    ok, v = _try_get(ent2, a)
+                    self.unbound_reader[a] = W.canon(v) if ok else ("getter-raises", type(v).__name__)
         finally:
             ws2.close()
         self.stats["reader_checked"] += 1
@@ -348,6 +362,8 @@ class Run:  # pylint: disable=too-many-instance-attributes
                 rv = self.raw_value(node, s)
                 if rv is not None:
                     self.raw_seen[s][0] = rv
+            agree0 = {a for a in self.unbound if a in self.unbound_reader
+                      and W.same(self.unbound_live[a], self.unbound_reader[a])}
             deviated = False
             pending = {}  # slot -> set of deviation tags still compatible with everything seen
             first_dev = {}
@@ -391,7 +407,9 @@ class Run:  # pylint: disable=too-many-instance-attributes
                 detail = ""
                 if act in ("Set", "SetSame"):
                     try:
-                        setattr(self.ent, self.attrs[s], W.materialise(self.values[s][t], self.ws))
+                        style = W.assign(self.target["cls"], self.ent, self.attrs[s],
+                                         W.materialise(self.values[s][t], self.ws), inplace=(i + self.parity) % 2 == 1)
+                        self.stats["assigned_" + style] += 1
                     except Exception as exc:  # pylint: disable=broad-except
                         outcome = "refused"
                         detail = f"{type(exc).__name__}: {str(exc)[:160]}"
@@ -440,6 +458,17 @@ class Run:  # pylint: disable=too-many-instance-attributes
                              f"step {i} {act}({self.attrs[s] if a else ''}{', token ' + str(t) if act == 'Set' else ''}) after "
                              f"{[list(x) for x in steps[:i - 1]]}: {what}")
                     break
+                if now_open:
+                    self.stats["unbound_scalar_checked"] += len(agree0)
+                    off = sorted(a for a in agree0 if not W.same(self.unbound_live[a], self.unbound_reader.get(a)))
+                    if off:
+                        b = off[0]
+                        self.bad(f"side-effect-one-sided:{self.pair(s) if a else self.tname}>{b}",
+                                 f"step {i} {act}({self.attrs[s] if a else ''}{', token ' + str(t) + ' = ' + W.short(self.values[s][t], 40) if act == 'Set' else ''}) "
+                                 f"after {[list(x) for x in steps[:i - 1]]}: the attribute {b}, which was not assigned, now "
+                                 f"reads {W.short(self.unbound_live[b], 50)} on the live entity and "
+                                 f"{W.short(self.unbound_reader.get(b), 50)} for a fresh reader of the file")
+                        break
                 if act in ("Set", "SetSame") and s in pending:
                     # a mechanism that had an outcome of its own for this step which the implementation did not show is refuted
                     offered = {c[1] for c in cands if c[1]}
